@@ -17,7 +17,7 @@ use crate::Ctx;
 
 /// number of variables after executing `ops` on a manager created with n variables
 fn n_now(ops: &[Op], n: u32) -> u32 {
-    n + ops.iter().map(|o| if let Op::AddVars(k) | Op::AddNamedVars(k) | Op::AddNamedVarsRejected(k) = o { *k } else { 0 }).sum::<u32>()
+    n + ops.iter().map(|o| if let Op::AddVars(k) | Op::AddNamedVars(k) | Op::AddNamedVarsRejected(k) | Op::AddNamedVarsPanicking(k) = o { *k } else { 0 }).sum::<u32>()
 }
 
 /// History biased towards apply-cache hazards
